@@ -1,12 +1,17 @@
 package harness
 
 import (
+	"context"
 	"encoding/json"
 	"fmt"
+	"os"
+	"path/filepath"
 	"sort"
 	"strings"
+	"sync"
 	"testing"
 
+	"github.com/gethiox/HIDI/internal/pkg/input"
 	"github.com/gethiox/HIDI/internal/pkg/midi/device/config"
 	"pgregory.net/rapid"
 )
@@ -261,7 +266,8 @@ func (r *recSpelling) spelling() *Spelling {
 
 func checkC10(c C10Case) (bool, *Violation) {
 	rs := &recSpelling{rec: c.Spell}
-	text := RenderTOML(c.D, rs.spelling())
+	spell := rs.spelling()
+	text := RenderTOML(c.D, spell)
 	var cfg config.Config
 	var perr error
 	if v := guard("C10", "parser-panic", func() *Violation {
@@ -279,6 +285,11 @@ func checkC10(c C10Case) (bool, *Violation) {
 		}
 		return true, nil
 	}
+	if perr != nil && spell.Padded {
+		classify("note number with leading zeros rejected (not asserted)")
+		return false, nil
+	}
+	classifyIf(spell.Padded, "note number with leading zeros accepted")
 	if perr != nil {
 		return true, violation("C10", "valid-rejected", "", "a valid configuration was rejected: %v\n%s", perr, text)
 	}
@@ -555,7 +566,8 @@ func invalidate(t *rapid.T, d *Desc) string {
 		return kind + ": " + a.RawDZName
 	case "bad-note-name":
 		k := ensureKey(t, d)
-		k.RawValue = strp(rapid.SampledFrom([]string{"H2", "C9", "Cb3", "", "c#", "E#1", "B#0", "c-3", "C 4", "C4 ", "do", "G#8", "c0,1,2", "c0,x", "c0,"}).Draw(t, "noteText"))
+		k.RawValue = strp(rapid.SampledFrom([]string{"H2", "C9", "Cb3", "", "c#", "E#1", "B#0", "c-3", "C 4", "C4 ", "do", "G#8", "c0,1,2", "c0,x", "c0,",
+			"0x10", "0b11", "0o17", "1_0", "0_7", "1e1", "12.0", "0x3c,1", "+-5"}).Draw(t, "noteText"))
 		return kind + ": " + fmt.Sprintf("%q", *k.RawValue)
 	case "unknown-action":
 		act := rapid.SampledFrom([]string{"octave_upp", "Panic", "", "transpose", "octave-up"}).Draw(t, "badAction")
@@ -633,3 +645,126 @@ func invalidate(t *rapid.T, d *Desc) string {
 func TestC10(t *testing.T) { ReplayOrRapid(t, NewRun(t, "C10"), checkC10, genC10) }
 
 var _ = sort.Strings
+
+// ---- C10 through files: what the loader returns for a file is what the file says NOW ----
+//
+// C10FileCase: the valid configuration of the case is written to one fixed path of a per-process hidi-config tree and
+// loaded with config.LoadDeviceConfigs; then the file is saved again in place with a second version of exactly the same
+// length (a mapping name in other letter case, or - Break - a default channel that makes it invalid) and everything is
+// loaded again, as after a change notification. Oracle: each load gives what config.ParseData gives for the text that
+// is in the file at that moment (differential), an invalid version is not served.
+type C10FileCase struct {
+	C     C10Case `json:"c"`
+	Break bool    `json:"break"`
+}
+
+var c10FilesRoot string
+
+func c10SecondVersion(d *Desc, brk bool) *Desc {
+	raw, _ := json.Marshal(d)
+	var d2 Desc
+	_ = json.Unmarshal(raw, &d2)
+	if brk && d2.Channel >= 1 && d2.Channel <= 9 {
+		d2.Channel = 0 // same length, invalid
+		return &d2
+	}
+	old := d2.Mappings[0].Name
+	flipped := strings.ToUpper(old)
+	if flipped == old {
+		flipped = strings.ToLower(old)
+	}
+	if flipped == old { // no letters: nothing to change without changing the length
+		return nil
+	}
+	for _, m := range d2.Mappings {
+		if m.Name == flipped {
+			return nil
+		}
+	}
+	d2.Mappings[0].Name = flipped
+	if d2.DefMapping == old {
+		d2.DefMapping = flipped
+	}
+	return &d2
+}
+
+func checkC10File(fc C10FileCase) (bool, *Violation) {
+	c := fc.C
+	if c.D == nil || len(c.D.Mappings) == 0 || c.Invalid != "" { // (corpus cases of the other C10 part land here with an empty case)
+		return false, nil
+	}
+	d2 := c10SecondVersion(c.D, fc.Break)
+	if d2 == nil {
+		return false, nil
+	}
+	texts := []string{RenderTOML(c.D, (&recSpelling{rec: c.Spell}).spelling()), RenderTOML(d2, (&recSpelling{rec: c.Spell}).spelling())}
+	if len(texts[0]) != len(texts[1]) {
+		return false, nil // the second version must not change the length
+	}
+	if c10FilesRoot == "" {
+		root, err := os.MkdirTemp(".", "c10files-")
+		if err != nil {
+			return false, violation("C10", "harness", "", "mkdtemp: %v", err)
+		}
+		c10FilesRoot, _ = filepath.Abs(root)
+		for _, dir := range c12Dirs {
+			if err := os.MkdirAll(filepath.Join(c10FilesRoot, dir), 0o755); err != nil {
+				return false, violation("C10", "harness", "", "mkdir: %v", err)
+			}
+		}
+	}
+	path := filepath.Join(c10FilesRoot, c12Dirs[0], "device.toml")
+	id := input.InputID{Bus: c.D.ID[0], Vendor: c.D.ID[1], Product: c.D.ID[2], Version: c.D.ID[3]}
+	var v *Violation
+	herr := inDir(c10FilesRoot, func() {
+		for gen, text := range texts {
+			if err := os.WriteFile(path, []byte(text), 0o644); err != nil {
+				v = violation("C10", "harness", "", "write: %v", err)
+				return
+			}
+			v = guard("C10", "loader-panic", func() *Violation {
+				direct, derr := config.ParseData([]byte(text))
+				var wg sync.WaitGroup
+				cfgs, lerr := config.LoadDeviceConfigs(context.Background(), &wg)
+				if lerr != nil {
+					return violation("C10", "load-error", "", "LoadDeviceConfigs failed: %v", lerr)
+				}
+				got, ferr := cfgs.FindConfig(id, input.KeyboardDevice)
+				what := []string{"first version", "second version (saved again in place, same length)"}[gen]
+				if derr != nil {
+					if ferr == nil {
+						return violation("C10", "file-invalid-served", "", "%s of the file is rejected by the parser (%v) but the loader serves a configuration for the device (mapping %q)\n%s", what, derr, firstMappingName(&got), text)
+					}
+					return nil
+				}
+				if ferr != nil {
+					return violation("C10", "file-not-served", "", "%s of the file is a valid configuration but the loader does not serve it: %v\n%s", what, ferr, text)
+				}
+				if diff := firstDiff(viewFromConfig(&direct), viewFromConfig(&got.Config)); diff != "" {
+					return violation("C10", "file-not-faithful", "", "%s of the file: what the loader returns is not what the file says now; %s\n%s", what, diff, text)
+				}
+				return nil
+			})
+			if v != nil {
+				return
+			}
+		}
+	})
+	os.Remove(path)
+	if herr != nil {
+		return false, violation("C10", "harness", "", "chdir: %v", herr)
+	}
+	classifyIf(fc.Break && d2.Channel == 0, "second version invalid")
+	return true, v
+}
+
+func genC10File(t *rapid.T) C10FileCase {
+	d := genFullDesc(t)
+	c := C10Case{D: d}
+	rs := &recSpelling{t: t}
+	_ = RenderTOML(d, rs.spelling())
+	c.Spell = rs.rec
+	return C10FileCase{C: c, Break: rapid.IntRange(0, 3).Draw(t, "break") == 0}
+}
+
+func TestC10Files(t *testing.T) { ReplayOrRapid(t, NewRun(t, "C10"), checkC10File, genC10File) }
